@@ -498,6 +498,11 @@ impl<'a> VdafVisitor for MisuseRun<'a> {
                 } else {
                     no_panic!(obs, "verify-init-wellformed-garbage-leader-share", "verify_init with a well-formed but arbitrary leader share", vdaf.verify_init(&key, b"ctx", 0, &(), &nonce, &ps, &share));
                 }
+                // a share of the leader's form (whatever else it carries, e.g. an unneeded blind)
+                // is of the wrong role under every helper identifier
+                for j in 1..n {
+                    must_err!(obs, "verify-init-leader-form-share-under-helper-id", format!("verify_init with a leader-form share (blind present = {blind_present}, type needs one = {jr}) under aggregator id {j}"), vdaf.verify_init(&key, b"ctx", j, &(), &nonce, &ps, &share));
+                }
             }
             P3Misuse::BadHelperShare => {
                 let share = Prio3InputShare::<T::Field, 32>::Helper { meas_and_proofs_share: seed_from(&[4u8; 32]), joint_rand_blind: if jr { None } else { Some(seed_from(&[5u8; 32])) } };
@@ -506,6 +511,7 @@ impl<'a> VdafVisitor for MisuseRun<'a> {
                 } else {
                     no_panic!(obs, "verify-init-helper-share-with-spurious-blind", "verify_init with a helper share carrying an unneeded blind", vdaf.verify_init(&key, b"ctx", 1, &(), &nonce, &ps, &share));
                 }
+                must_err!(obs, "verify-init-helper-form-share-under-leader-id", "verify_init with a helper-form share under aggregator id 0", vdaf.verify_init(&key, b"ctx", 0, &(), &nonce, &ps, &share));
             }
             P3Misuse::ShareCount(k) => {
                 let mut vs = vec![];
